@@ -17,54 +17,16 @@
       a PEntry right after the Rename);
    2. the publish discipline, as an executable checker over ANY call trace with a ghost state
       (which temp holds what, which final names are linked / durably linked / referenced);
-   3. the library's programs: publish_meta, publish_data, and a commit as their concatenation in
+   3. the library's programs: publish_meta, publish_data (their call sequences are REGENERATED from
+      the source: Gen/GenDurable.v), and a commit as their concatenation in
       the code's order; an operation history is a list of commits.
 
    Path classes are syntactic: `T d n` is a temporary name (mkstemp / NamedTemporaryFile) destined
    for the final name `P d n` in directory d.  `PTR` is the version pointer. *)
 From Coq Require Import NArith List Bool Arith.
+Require Export DS.Model.DurableBase DS.Gen.GenDurable.
 Import ListNotations.
 Open Scope N_scope.
-
-(* ------------------------------------------------------------------------------------------ *)
-(* 1. paths, contents, calls                                                                   *)
-
-Inductive path := P (d n : N) | T (d n : N).
-
-Definition path_eqb (a b : path) : bool :=
-  match a, b with
-  | P d n, P d' n' => (d =? d') && (n =? n')
-  | T d n, T d' n' => (d =? d') && (n =? n')
-  | _, _ => false
-  end.
-
-Definition dir_of (p : path) : N := match p with P d _ => d | T d _ => d end.
-Definition tmp_of (p : path) : path := match p with P d n => T d n | T d n => T d n end.
-Definition is_final (p : path) : bool := match p with P _ _ => true | T _ _ => false end.
-
-(* metadata.version-hint.text in the table root (directory 0) *)
-Definition PTR : path := P 0 0.
-
-(* File contents are token lists: opaque payload tokens and references to other files.  A partial
-   write / partial flush is a proper prefix of the token list. *)
-Inductive token := Raw (z : N) | Ref (p : path).
-Definition content := list token.
-
-Fixpoint refs (c : content) : list path :=
-  match c with
-  | [] => []
-  | Raw _ :: c' => refs c'
-  | Ref p :: c' => p :: refs c'
-  end.
-
-Inductive call :=
-| Create (p : path)              (* open(O_CREAT|O_EXCL): mkstemp, NamedTemporaryFile *)
-| Write (p : path) (b : content) (* write / pwrite through any descriptor of p (appends) *)
-| Fsync (p : path)               (* fsync / fdatasync of a descriptor of the file p *)
-| Rename (p q : path)            (* rename / os.replace *)
-| FsyncDir (d : N)               (* fsync of a descriptor of directory d *)
-| Unlink (p : path)
-| Mkdir (d : N).                 (* directories are outside the property: no effect on files *)
 
 (* ------------------------------------------------------------------------------------------ *)
 (* 2. the file system                                                                          *)
@@ -270,14 +232,13 @@ Fixpoint first_bad (g : ghost) (tr : list call) (k : nat) : option nat :=
 
 (* LocalStorageBackend.write_file: mkstemp; os.write; os.fsync; os.close; os.replace;
    os.open(dir); os.fsync(dir_fd).  Used for markers, manifests, manifest lists, metadata files
-   and the pointer. *)
-Definition publish_meta (p : path) (c : content) : list call :=
-  [Create (tmp_of p); Write (tmp_of p) c; Fsync (tmp_of p); Rename (tmp_of p) p; FsyncDir (dir_of p)].
+   and the pointer.  The call sequence is GenDurable.gen_write_file, regenerated from the source on
+   every run (today: [Create tmp; Write tmp c; Fsync tmp; Rename tmp p; FsyncDir (dir_of p)]). *)
+Definition publish_meta (p : path) (c : content) : list call := gen_write_file (tmp_of p) p c.
 
 (* DataFileWriter.open/close: NamedTemporaryFile(delete=False); ParquetWriter writes and closes;
-   os.open(temp) + os.fsync; os.replace; os.open(dir) + os.fsync. *)
-Definition publish_data (p : path) (c : content) : list call :=
-  [Create (tmp_of p); Write (tmp_of p) c; Fsync (tmp_of p); Rename (tmp_of p) p; FsyncDir (dir_of p)].
+   os.open(temp) + os.fsync; os.replace; os.open(dir) + os.fsync.  GenDurable.gen_data_writer. *)
+Definition publish_data (p : path) (c : content) : list call := gen_data_writer (tmp_of p) p c.
 
 Record pubfile := mkPub { pf_path : path; pf_content : content }.
 
